@@ -771,7 +771,18 @@ pub fn watch_session(env: &WorkerEnv, args: Vec<String>, dir: &Path, saves: &[Ve
         .env_remove("RUST_BACKTRACE");
     die_with_parent(&mut cmd);
     let mut child = cmd.spawn().map_err(|e| format!("spawn svgdx --watch: {e}"))?;
-    let failures = |p: &Path| std::fs::read(p).map(|b| b.windows(16).filter(|w| w == b"transform failed").count()).unwrap_or(0);
+    // (whatever the command says about a failed transform: every line on stderr which is not
+    // one of its two progress notes counts)
+    let failures = |p: &Path| {
+        std::fs::read(p)
+            .map(|b| {
+                String::from_utf8_lossy(&b)
+                    .lines()
+                    .filter(|l| !l.trim().is_empty() && !l.starts_with("Watching ") && !l.trim_end().ends_with(" changed"))
+                    .count()
+            })
+            .unwrap_or(0)
+    };
     let mut prev: Option<Vec<u8>> = pre_out.map(|b| b.to_vec());
     let mut seen_failures = 0;
     let mut obs = Vec::new();
